@@ -79,6 +79,8 @@ pub struct MockIo {
     /// 1 = the adapter idiom `initialize_unfilled()`, copy, `advance(n)` (initialises the whole
     /// spare capacity, also on the end-of-stream read), 2 = `initialize_unfilled_to(n + 7)`
     pub read_style: u8,
+    /// reads answered with "end of stream" so far
+    pub eof_reads: u32,
     // write side
     pub wire: Vec<u8>,
     pub wscript: std::collections::VecDeque<WStep>,
@@ -108,6 +110,11 @@ impl AsyncRead for MockIo {
                 this.events.push(Ev::ReadErr(kind));
                 return Poll::Ready(Err(io::Error::new(kind, "injected read error")));
             }
+        }
+        // a reader whose buffer grows without bound (it believes it received more than it did)
+        // offers ever larger buffers: stop it before the process runs out of memory
+        if buf.remaining() > (4 << 20) + 8 * this.stream.len() {
+            panic!("verif: the reader offers a buffer of {} bytes for a stream of {} bytes: its read buffer grows without bound", buf.remaining(), this.stream.len());
         }
         let step = this.rscript.pop_front().unwrap_or(RStep::Chunk(u16::MAX));
         match step {
@@ -140,6 +147,12 @@ impl AsyncRead for MockIo {
                 }
                 this.delivered += n;
                 if n == 0 && this.delivered == this.stream.len() {
+                    this.eof_reads += 1;
+                    // a reader that does not take "0 bytes" for the end keeps reading (and, if it
+                    // believes it got data, keeps growing its buffer) inside one call: stop it here
+                    if this.eof_reads > 24 {
+                        panic!("verif: the transport was read {} times after it had reported the end of the stream: the reader does not stop at a zero-length read", this.eof_reads);
+                    }
                     this.events.push(Ev::ReadEof);
                 } else {
                     this.events.push(Ev::ReadData(n));
